@@ -6,12 +6,12 @@ import os
 SPEC = os.path.join(os.path.dirname(os.path.dirname(os.path.abspath(__file__))), "spec")
 
 DEFAULT = dict(
-    AckMode='"shaped"', ThrMode='"fixed"', EmptyMode='"fixed"', RstMode='"pinned"',
+    AckMode='"shaped"', ThrMode='"fixed"', EmptyMode='"fixed"', RstMode='"fixed"',
     CfgSet="OneCfg", SameCfg="TRUE", Openers='{"A"}', MaxOpens=1, Ids="{1}", Hosts='{"h0"}',
     MaxWrites=0, Writers='{"A", "B"}', Lens="{1}", ReadMax="{4}", Closers="{}", MuxDroppers="{}", Cancellers="{}", DgSenders="{}", MaxDgrams=0,
     Binders="{}", MaxBinds=0, Faults="{}", AdvMsgs="{}", MaxAdv=0, Bridgers="{}", MaxHandles=2, MaxCtr=3,
 )
-INV = "NoViolation TypeOK AckSound QueueBound InitialCredit ExactlyOne TargetCarried BoundedRetry Released DoneResolved"
+INV = "NoViolation TypeOK AckSound QueueBound InitialCredit ExactlyOne TargetCarried BoundedRetry Released DoneResolved NoOrphanWriter"
 
 CONFIGS = {
     # C02 / C03: data path, every (rwnd, thr) pair per side independently
@@ -25,11 +25,9 @@ CONFIGS = {
     # C05 / C06: every order of write / shutdown / drop / read on both ends of one stream
     "MC_Close_q": dict(CfgSet="TinyCfg", MaxWrites=1, Closers='{"A", "B"}', MaxHandles=1, MaxCtr=1),
     "MC_Close": dict(CfgSet="CloseCfgs", MaxWrites=2, Lens="{1, 0}", Closers='{"A", "B"}', MaxHandles=1, MaxCtr=1),
-    # F19: the code sends no Reset for a stream dropped after its own Finish while the peer may still be sending
-    # (RstMode "pinned" is what the code does and what every other configuration uses).  Witness: the orphaned writer is
-    # reachable; with the proposed repair (RstMode "fixed") it is not.
-    "MC_Close_orphan": dict(CfgSet="TinyCfg", MaxWrites=1, Closers='{"A", "B"}', MaxHandles=1, MaxCtr=1),
-    "MC_Close_rstfixed": dict(RstMode='"fixed"', CfgSet="CloseCfgs", MaxWrites=2, Lens="{1, 0}", Closers='{"A", "B"}', MaxHandles=1, MaxCtr=1),
+    # F19 (repaired): the pinned code sent no Reset for a stream dropped after its own Finish while the peer was still
+    # sending.  Self-test: with the pinned rule TLC reaches the orphaned writer.
+    "MC_Close_orphan": dict(RstMode='"pinned"', CfgSet="TinyCfg", MaxWrites=1, Closers='{"A", "B"}', MaxHandles=1, MaxCtr=1),
     # C06: re-opening the same flow id after the first stream was closed in every way
     "MC_Reuse_q": dict(CfgSet="TinyCfg", MaxOpens=2, Closers='{"A", "B"}', MaxHandles=2, MaxCtr=2),
     "MC_Reuse": dict(CfgSet="TinyCfg", MaxOpens=2, MaxWrites=1, Writers='{"A"}', Closers='{"A", "B"}', MaxHandles=2, MaxCtr=2),
@@ -81,7 +79,7 @@ LIVE = {
 
 
 def render_live(name, c):
-    lines = ["SPECIFICATION Spec", "CONSTANTS", '  AckMode = "shaped"', f"  ThrMode = {c['ThrMode']}", '  EmptyMode = "fixed"', '  RstMode = "pinned"',
+    lines = ["SPECIFICATION Spec", "CONSTANTS", '  AckMode = "shaped"', f"  ThrMode = {c['ThrMode']}", '  EmptyMode = "fixed"', '  RstMode = "fixed"',
              f"  CfgSet <- {c['CfgSet']}", f"  Extra = {c['Extra']}", f"  BothWays = {c['BothWays']}",
              f"  Stalled = {c['Stalled']}", f"  Dgrams = {c['Dgrams']}", "INVARIANT NoViolation", "PROPERTY Progress", ""]
     with open(os.path.join(SPEC, name + ".cfg"), "w") as f:
@@ -92,7 +90,7 @@ if __name__ == "__main__":
     for n, o in LIVE.items():
         render_live(n, o)
     for n, o in CONFIGS.items():
-        render(n, o, extra_inv="NoOrphanWriter" if n in ("MC_Close_orphan", "MC_Close_rstfixed") else "")
+        render(n, o)
     # reachability witnesses: configurations in which the named "invariant" must be VIOLATED
     render("MC_Reuse_kf", dict(CONFIGS["MC_Reuse_q"]), extra_inv="NoKF")
     print("wrote", len(CONFIGS) + 1, "configs")
